@@ -23,7 +23,7 @@ MARK = "(* ==== INSTANCE ===="
 KINDS = ["iaf_cells", "pulse_generators", "exp_one_synapses", "izhikevich_cells"]
 INSTANCE_THEOREMS = ["C07_state_ok", "C07_loads_history_independent", "C07_builders_do_not_interfere",
                      "C07_no_default_is_mutated", "C07_every_field_is_per_instance", "C07_no_written_global_is_read",
-                     "C07_class_metadata_is_constant"]
+                     "C07_class_metadata_is_constant", "C07_process_state_is_restored"]
 
 
 # --------------------------------------------------------------------------------------- translator
@@ -60,6 +60,11 @@ def gen_table(d):
     cm = ["{| cm_module := %s; cm_attr := %s; cm_kind := %s; cm_classes := %s; cm_mutated := %s; cm_aliases := %s |}"
           % (coq_str(x["module"]), coq_str(x["attr"]), "MMemo" if x["kind"] == "memo" else "MMetadata", coq_z(x["classes"]),
              b(x["mutated"]), b(x["aliases"])) for x in d.get("classmeta", [])]
+    psk = {"cwd": "KCwd", "environ": "KEnviron", "sys.path": "KSysPath", "warnings": "KWarnings", "logging": "KLogging",
+           "recursionlimit": "KRecursion", "locale": "KLocale", "stdio": "KStdio"}
+    ps = ["{| ps_module := %s; ps_func := %s; ps_kind := %s; ps_import_time := %s; ps_restored := %s |}"
+          % (coq_str(x["module"]), coq_str(x["func"]), psk[x["kind"]], b(x["scope"] != "function"), b(x["restored"]))
+          for x in d.get("process_state", [])]
     mode = {"none": "DNone", "shared": "DSharedList"}
     ms = d["entry_defaults"].get("modes", {})
     lines = ["From Coq Require Import String List Bool ZArith.", "From LNML Require Import Model.State.",
@@ -68,7 +73,8 @@ def gen_table(d):
              "  st_defaults := %s;" % coq_list(ds).replace("; {|", ";\n    {|"),
              "  st_fields := %s;" % coq_list(fs).replace("; {|", ";\n    {|"),
              "  st_globals := %s;" % coq_list(gs).replace("; {|", ";\n    {|"),
-             "  st_classmeta := %s |}." % coq_list(cm).replace("; {|", ";\n    {|")]
+             "  st_classmeta := %s;" % coq_list(cm).replace("; {|", ";\n    {|"),
+             "  st_process := %s |}." % coq_list(ps).replace("; {|", ";\n    {|")]
     shp = d["entry_defaults"].get("shape", {})
     lines += ["(* the version-dependent places of loaders.py / NetworkBuilder.py, read off the source *)",
               "Definition shape : lshape := {| sh_mark_entry := %s; sh_append_first := %s; sh_h5_threads := %s |}."
@@ -90,6 +96,7 @@ INST = {
     "defaults": "Lemma defaults_ok : mutated_defaults Gen_C07.table = [].\nProof. vm_compute. reflexivity. Qed.\n",
     "fields": "Lemma fields_ok : all_own Gen_C07.table = true.\nProof. vm_compute. reflexivity. Qed.\n",
     "globals": "Lemma globals_ok : globals_read Gen_C07.table = [].\nProof. vm_compute. reflexivity. Qed.\n",
+    "process": "Lemma process_state_ok : process_leaks Gen_C07.table = [].\nProof. vm_compute. reflexivity. Qed.\n",
     "classmeta": "Lemma classmeta_ok : mutated_class_attrs Gen_C07.table = [].\nProof. vm_compute. reflexivity. Qed.\n",
 }
 HEAD = ("From Coq Require Import String List Bool ZArith.\nFrom LNML Require Import Model.State Proofs.StateP.\n"
@@ -131,6 +138,8 @@ def table_and_props(ck, d):
                 ref.append("Lemma interleave_refuted_for_this_table :\n"
                            "  bdump (placement_of Gen_C07.table) WA (brun Gen_C07.elec_guard (placement_of Gen_C07.table) wit_sched bsys0)\n"
                            "  <> solo_dump Gen_C07.elec_guard (ops_of WA wit_sched).\nProof. vm_compute. discriminate. Qed.\n")
+        if not inst_ok["process"]:
+            ref.append("Lemma process_state_refuted : process_leaks Gen_C07.table <> [].\nProof. vm_compute. discriminate. Qed.\n")
         if not inst_ok["classmeta"]:
             ref.append("Lemma classmeta_refuted : mutated_class_attrs Gen_C07.table <> [].\nProof. vm_compute. discriminate. Qed.\n")
         if not inst_ok["globals"]:
@@ -169,7 +178,46 @@ W_POOL += [
     {"name": "w_y.nml.h5", "kind": "h5", "items": [["izhikevich_cells", "izh0"]], "includes": [],
      "net": {"id": "netY", "pops": [{"id": "popY", "comp": "izh0", "size": 3}], "projs": [], "ilists": []}},
 ]
+XSI_DOC = ('<neuroml xmlns="http://www.neuroml.org/schema/neuroml2" xmlns:xsi="http://www.w3.org/2001/XMLSchema-instance" '
+           'id="doc_w_xsi">\n    <iafCell xsi:type="IafRefCell" id="iafref" refract="5ms" leakReversal="-60mV" thresh="-50mV" '
+           'reset="-65mV" C="1nF" leakConductance="0.05uS"/>\n</neuroml>\n')
+W_POOL += [
+    # relative paths / working directory: the same include name exists in the pool root and in sub/
+    {"name": "w_rcell.nml", "kind": "xml", "items": [["iaf_cells", "iafroot"]], "includes": []},
+    {"name": "sub/w_rcell.nml", "kind": "xml", "items": [["iaf_cells", "iafsub"]], "includes": []},
+    {"name": "w_rnet.nml", "kind": "xml", "items": [["pulse_generators", "pgr"]], "includes": ["w_rcell.nml"]},
+    {"name": "sub/w_broken.nml", "kind": "xml", "raw": '<neuroml xmlns="http://www.neuroml.org/schema/neuroml2" id="b"><network',
+     "items": [], "includes": [], "model_kind": "FH5"},      # not well formed: parsing it as XML raises
+    {"name": "w_morph.h5", "kind": "rawh5", "items": [], "includes": [], "model_kind": "FXml"},   # HDF5, but not NeuroML
+    # xsi:type on a polymorphic child
+    {"name": "w_xsi.nml", "kind": "xml", "raw": XSI_DOC, "items": [["iaf_cells", "iafref"]], "includes": []},
+    # a population with a property (handlers with and without a `properties` parameter)
+    {"name": "w_props.nml.h5", "kind": "h5", "items": [["iaf_cells", "iafq"]], "includes": [],
+     "net": {"id": "wprops", "pops": [{"id": "p0", "comp": "iafq", "size": 2, "props": [["color", "1 0 0"], ["radius", "5"]]}],
+             "projs": [], "ilists": []}},
+    {"name": "w_swc.swc", "kind": "xml", "raw": "1 1 0 0 0 1 -1\n2 3 1 0 0 1 1\n3 3 2 0 0 1 2\n", "items": [], "includes": [],
+     "model_kind": "FH5"},
+]
 W_HIST = [
+    ("a load that fails in a sub-folder, then the same relative-path load / string load with a relative include as before",
+     [{"ep": "file", "name": "w_rnet.nml", "incl": True, "rel": True},
+      {"ep": "string", "name": "w_rnet.nml", "incl": True, "base": "none"},
+      {"ep": "file", "name": "sub/w_broken.nml", "incl": True},
+      {"ep": "file", "name": "w_rnet.nml", "incl": True, "rel": True},
+      {"ep": "string", "name": "w_rnet.nml", "incl": True, "base": "none"},
+      {"ep": "string", "name": "w_rnet.nml", "incl": True}]),
+    ("failing loads of every kind between two identical loads",
+     [{"ep": "file", "name": "w_main.nml", "incl": True}, {"ep": "file", "name": "nonexistent_top.nml", "incl": True},
+      {"ep": "string", "name": "sub/w_broken.nml", "incl": True}, {"ep": "h5", "name": "w_morph.h5"},
+      {"ep": "file", "name": "w_morph.h5", "incl": True}, {"ep": "file", "name": "w_main.nml", "incl": True},
+      {"ep": "h5", "name": "w_plain.nml.h5"}]),
+    ("xsi:type after another file load",
+     [{"ep": "file", "name": "w_cell.nml", "incl": False}, {"ep": "file", "name": "w_xsi.nml", "incl": False},
+      {"ep": "string", "name": "w_xsi.nml", "incl": False}]),
+    ("HDF5 parser with a handler without `properties`, then an ordinary HDF5 load of a population with properties",
+     [{"ep": "h5_noprops", "name": "w_props.nml.h5"}, {"ep": "h5", "name": "w_props.nml.h5"}]),
+    ("XML parser with an old-API (camelCase) handler after another XML-parser build",
+     [{"ep": "xmlparser", "name": "w_y.nml"}, {"ep": "xmlparser_oldapi", "name": "w_y.nml"}]),
     ("HDF5 loads X, Y, X: X has a top-level annotation and an unresolved component; Y's build calls nml_doc.append()",
      [{"ep": "h5", "name": "w_x.nml.h5"}, {"ep": "h5", "name": "w_y.nml.h5"}, {"ep": "h5", "name": "w_x.nml.h5"}]),
     ("XML-parser driven NetworkBuilder builds X, Y, X",
@@ -195,6 +243,8 @@ def gen_net(rng, tag, comps, syns, pgs):
     ids = rng.sample(["p0", "p1", "p2"], rng.choice([2, 2, 3]))
     for pid in ids:
         p = {"id": pid, "comp": rng.choice(comps) if rng.random() < 0.7 else "lems_" + tag, "size": rng.randint(1, 3)}
+        if rng.random() < 0.4:
+            p["props"] = [["color", "%d 0 0" % rng.randint(0, 1)]] + ([["radius", str(rng.randint(1, 9))]] if rng.random() < 0.5 else [])
         if rng.random() < 0.5:
             p["instances"] = [[i, rng.randint(0, 9), rng.randint(0, 9), rng.randint(0, 9)] for i in range(p["size"])]
         pops.append(p)
@@ -250,6 +300,9 @@ def gen_pool(rng, n_xml):
         specs[xn] = {"name": xn, "kind": "xml", "items": [["pulse_generators", "xpg%d" % j]], "includes": incs,
                      "annotation": rng.random() < 0.6, "net": gen_net(rng, "x%d" % j, comps, syns, pgs)}
     pool += [specs[n] for n in names + h5 + ["netx.nml", "nety.nml"]]
+    pool.append({"name": "sub/bad_broken.nml", "kind": "xml", "raw": "<neuroml><iafCell id=", "items": [], "includes": [],
+                 "model_kind": "FH5"})
+    pool.append({"name": "sub/s0.nml", "kind": "xml", "items": [["iaf_cells", "cs0"]], "includes": [names[-1], "w_rcell.nml"]})
     pool.append({"name": "bad_ext.nml", "kind": "xml", "items": [["iaf_cells", "cb"]], "includes": [names[-1], "notes.txt"]})
     pool.append({"name": "bad_missing.nml", "kind": "xml", "items": [["iaf_cells", "cm"]], "includes": [names[-2], "nonexistent.nml"]})
     return pool
@@ -259,7 +312,13 @@ def gen_calls(rng, pool):
     calls = []
     for f in pool:
         n = f["name"]
-        if f["kind"] == "h5":
+        if n.endswith(".swc"):
+            continue
+        if f["kind"] == "rawh5":
+            calls += [{"ep": "h5", "name": n}, {"ep": "file", "name": n, "incl": True}, {"ep": "h5_noprops", "name": n}]
+        elif f["kind"] == "h5":
+            if f.get("net"):
+                calls.append({"ep": "h5_noprops", "name": n})
             calls += [{"ep": "h5", "name": n}, {"ep": "h5", "name": n, "opt": True}, {"ep": "h5", "name": n, "opt": True, "use": True},
                       {"ep": "file", "name": n, "incl": True}, {"ep": "file", "name": n, "incl": False, "opt": True},
                       {"ep": "inner_path", "name": n, "incl": True}]
@@ -274,12 +333,20 @@ def gen_calls(rng, pool):
                 calls.append({"ep": "string", "name": n, "incl": True, "ai": some})
             if f.get("net"):
                 calls.append({"ep": "xmlparser", "name": n})
+                calls.append({"ep": "xmlparser_oldapi", "name": n})
+            if "/" not in n:
+                calls.append({"ep": "file", "name": n, "incl": True, "rel": True})
+                calls.append({"ep": "string", "name": n, "incl": True, "base": "none"})
+                calls.append({"ep": "inner_path", "name": n, "incl": True, "rel": True})
+    calls.append({"ep": "file", "name": "nonexistent_top.nml", "incl": True})
+    calls.append({"ep": "file", "name": "nonexistent_top.nml", "incl": True, "rel": True})
+    calls.append({"ep": "h5", "name": "nonexistent_top.nml.h5"})
     return calls
 
 
 def call_weight(c):
     w = 3 if (c.get("incl") or c["ep"] in ("h5", "xmlparser")) else 1
-    if c["name"].startswith("bad_"):
+    if c["name"].startswith("bad_") or "broken" in c["name"] or "nonexistent" in c["name"] or "morph" in c["name"]:
         w = 1
     return w
 
@@ -300,12 +367,20 @@ def gen_histories(rng, calls, n):
     return hs
 
 
+def resolve_include(names, fname, href):
+    """os.path.exists(href) (cwd = pool root) wins, else the folder of the including file"""
+    if href in names or os.path.dirname(fname) == "":
+        return href
+    return os.path.normpath(os.path.join(os.path.dirname(fname), href))
+
+
 def model_fs(d, pool):
     ents = []
+    names = {f["name"] for f in pool}
     for f in pool:
         ents.append("(%s, {| f_kind := %s; f_includes := %s; f_items := %s; f_net := %s |})" % (
-            coq_str(os.path.join(d, f["name"])), "FH5" if f["kind"] == "h5" else "FXml",
-            coq_list([coq_str(os.path.join(d, i)) for i in f.get("includes", [])]),
+            coq_str(os.path.join(d, f["name"])), f.get("model_kind") or ("FH5" if f["kind"] == "h5" else "FXml"),
+            coq_list([coq_str(os.path.join(d, resolve_include(names, f["name"], i))) for i in f.get("includes", [])]),
             coq_list([coq_str("%s:%s" % (k, c)) for k, c in f.get("items", [])] +
                      ([coq_str("networks:" + f["net"]["id"])] if f.get("net") and f["kind"] == "xml" else [])),
             coq_list([coq_str("networks:" + f["net"]["id"])] if f.get("net") and f["kind"] == "h5" else [])))
@@ -328,13 +403,17 @@ def model_call(d, c):
         return "CLoadH5 %s" % p
     if ep == "xml":
         return "CLoadXml %s" % p
-    if ep == "xmlparser":
+    if ep in ("xmlparser", "xmlparser_oldapi"):
         return "CFile %s true (Some [])" % p
+    if ep == "h5_noprops":
+        return "CLoadH5 %s" % p
     raise ValueError(ep)
 
 
-def impl_res_term(r):
-    return "(Some %s)" % coq_list([coq_str(x) for x in r["items"]]) if r.get("ok") else "None"
+def impl_res_term(r, c=None):
+    if c is not None and c["ep"] == "h5_noprops" and r.get("ok"):
+        return "None"      # no document is built: the model only threads the state through (see agree_all)
+    return "(Some %s)" % ("(Some %s)" % coq_list([coq_str(x) for x in r["items"]]) if r.get("ok") else "None")
 
 
 def classify_hist_diff(fresh, got):
@@ -349,6 +428,10 @@ def classify_hist_diff(fresh, got):
         return "included-components-missing" if gi < fi else "components-differ"
     if fresh.get("includes") != got.get("includes"):
         return "includes-differ"
+    if fresh.get("types") != got.get("types"):
+        return "component-types-differ"
+    if fresh.get("handler_calls") != got.get("handler_calls"):
+        return "handler-calls-differ"
     if fresh.get("meta") != got.get("meta"):
         return "document-attributes-differ"
     if fresh.get("nets") != got.get("nets"):
@@ -387,7 +470,11 @@ def run_histories(ck, d, tmp, modes_known, pi=0):
     used = sorted({i for h in hists for i in h})
     jobs = [{"kind": "history", "calls": [calls[i]]} for i in used] + \
            [{"kind": "history", "calls": [calls[i] for i in h]} for h in hists]
+    if pi == 0:
+        jobs.append({"kind": "warnings_probe", "good": "w_cell.nml", "broken": "sub/w_broken.nml", "swc": "w_swc.swc"})
     out = ck.impl("c07_impl.py", {"dir": tmp, "pool": pool, "jobs": jobs}, timeout=ck.n(300, 1500))
+    if pi == 0:
+        probe_warnings(ck, out["jobs"].pop()["value"])
     if not out.get("pool", {}).get("ok"):
         raise RuntimeError("pool writing failed: %s" % json.dumps(out.get("pool"))[:1500])
     fresh = {}
@@ -402,6 +489,7 @@ def run_histories(ck, d, tmp, modes_known, pi=0):
         hres.append(j["value"]["results"])
     # ---- property predicate on the implementation: every call of every history == the same call in a fresh process
     nw = 0
+    seen_proc = set()
     for hi, (h, rs) in enumerate(zip(hists, hres)):
         for pos, (ci, r) in enumerate(zip(h, rs)):
             c = calls[ci]
@@ -409,6 +497,18 @@ def run_histories(ck, d, tmp, modes_known, pi=0):
             ck.count(1, nontrivial_key=("hist", [calls[x] for x in h[:pos + 1]]) if nontriv else None,
                      sample={"history": [calls[x] for x in h], "position": pos} if pi == 0 and hi == len(W_HIST) and pos == 1 else None)
             ck.tally("history-call:" + c["ep"] + (":includes" if c.get("incl") else ""))
+            for chg in r.get("process_state_changed", []):
+                key = proc_key(chg, c)
+                if key in seen_proc:
+                    continue
+                seen_proc.add(key)
+                nw += 1
+                ck.witness(key, "a loader call changed process-global state and did not restore it: %s%s (%s)"
+                           % (chg["what"], " after a failing call" if chg.get("after_failure") else "", chg.get("how", "")),
+                           input={"kind": "history", "pool": prune_pool(pool, [calls[x] for x in h[:pos + 1]]),
+                                  "calls": [calls[x] for x in h[:pos + 1]], "invariant": "process-state"},
+                           expected={"process_state_changed": []}, observed={"process_state_changed": [chg]},
+                           broken="Inst_C07_process.v:process_state_ok")
             for chg in r.get("class_metadata_changed", []):
                 nw += 1
                 ck.witness("C07:class-metadata-changed:" + chg["what"].split("[")[0],
@@ -440,14 +540,15 @@ def run_histories(ck, d, tmp, modes_known, pi=0):
             part = list(zip(hists, hres))[k:k + chunk]
             lines = [HEAD, "Definition fs : fstore :=\n  %s." % model_fs(tmp, pool),
                      "Definition ms := modes_of Gen_C07.table.",
-                     "Fixpoint agree_all (m : list res) (i : list (option (list string))) : bool :=\n"
-                     "  match m, i with [], [] => true | a :: m', b :: i' => res_agrees a b && agree_all m' i' | _, _ => false end.",
-                     "Definition chk (h : list lcall) (i : list (option (list string))) : bool :=\n"
+                     "Fixpoint agree_all (m : list res) (i : list (option (option (list string)))) : bool :=\n"
+                     "  match m, i with [], [] => true | _ :: m', None :: i' => agree_all m' i'\n"
+                     "  | a :: m', Some b :: i' => res_agrees a b && agree_all m' i' | _, _ => false end.",
+                     "Definition chk (h : list lcall) (i : list (option (option (list string)))) : bool :=\n"
                      "  agree_all (results cell (list string) lcall res (exec_call 60 ms Gen_C07.shape fs) h w_empty) i."]
             terms = []
             for h, rs in part:
                 terms.append("chk %s %s" % (coq_list([model_call(tmp, calls[x]) for x in h]),
-                                            coq_list([impl_res_term(r) for r in rs])))
+                                            coq_list([impl_res_term(r, calls[x]) for r, x in zip(rs, h)])))
             lines.append("Eval vm_compute in (mismatches %s)." % coq_list(terms).replace("; chk", ";\n  chk"))
             ok, res, o = ck.coq_eval("Cases_C07_hist_%d_%d.v" % (pi, k // chunk), "\n".join(lines) + "\n")
             ck.oblige("correspondence:loader-model:%d:%d" % (pi, k // chunk), ok, o[-1500:], kind="correspondence")
@@ -461,6 +562,35 @@ def run_histories(ck, d, tmp, modes_known, pi=0):
     return pool
 
 
+K_RESET = "C07:process-state:warnings-filters-reset-by-load"
+K_IGNORE = "C07:process-state:warnings-ignore-filter-left-by-failed-load"
+
+
+def proc_key(chg, c):
+    if chg["what"] == "warnings-filters" and chg.get("how") == "emptied":
+        return K_RESET
+    if chg["what"] == "warnings-filters" and chg.get("how") == "ignore-left":
+        return K_IGNORE
+    return "C07:process-state:%s-changed-by:%s%s" % (chg["what"], c["ep"], ":after-failure" if chg.get("after_failure") else "")
+
+
+def probe_warnings(ck, pr):
+    """the behavioural confirmation of the two recorded findings: a LATER loader call (SWCLoader.load_swc_single, which
+    announces its deprecation with a FutureWarning) behaves differently under the user's `error` filter"""
+    f, a, x = (pr[k].get("value") or {} for k in ("fresh", "after_load", "after_failed_load"))
+    ck.extra["warnings_probe"] = {"fresh": f, "after_load": a, "after_failed_load": x}
+    ck.count(1, nontrivial_key=("warnings-probe",))
+    if f.get("swc", "").startswith("raised") and a.get("swc", "").startswith("returned"):
+        ck.witness(K_RESET, "with warnings.simplefilter('error') installed by the user, SWCLoader.load_swc_single raises FutureWarning "
+                   "in a fresh process but returns a morphology after any read_neuroml2_file call: the load's "
+                   "warnings.resetwarnings() removed every filter", input={"kind": "warnings_probe"},
+                   expected={"swc": f.get("swc")}, observed=a, broken="Inst_C07_process.v:process_state_ok")
+    if f.get("swc", "").startswith("raised") and x.get("swc", "").startswith("returned") and x.get("first_filter") == "ignore":
+        ck.witness(K_IGNORE, "after a read_neuroml2_string call that FAILED (malformed XML) the loader's simplefilter('ignore') stays "
+                   "installed in front of the user's filters: SWCLoader.load_swc_single no longer raises", input={"kind": "warnings_probe"},
+                   expected={"swc": f.get("swc")}, observed=x, broken="Inst_C07_process.v:process_state_ok")
+
+
 def prune_pool(pool, calls):
     byname = {f["name"]: f for f in pool}
     need, todo = set(), [c["name"] for c in calls]
@@ -469,7 +599,7 @@ def prune_pool(pool, calls):
         if n in need or n not in byname:
             continue
         need.add(n)
-        todo += byname[n].get("includes", [])
+        todo += [resolve_include(set(byname), n, i) for i in byname[n].get("includes", [])] + byname[n].get("includes", [])
     return [f for f in pool if f["name"] in need]
 
 
@@ -795,6 +925,8 @@ def run(ck):
                                               if x["mutated"] or x["escapes"]],
                          "shared_fields": ["%s.%s" % (x["cls"], x["attr"]) for x in d["fields"] if x["placement"] == "Shared"],
                          "globals_read": ["%s.%s" % (x["module"], x["name"]) for x in d["globals"] if x["readers"]],
+                         "process_state": [{k: x[k] for k in ("module", "func", "line", "kind", "call", "scope", "restored", "how")}
+                                           for x in d.get("process_state", [])],
                          "class_metadata": [{"attr": x["attr"], "kind": x["kind"], "classes": x["classes"], "mutated": x["mutated"],
                                              "aliases": x["aliases"], "why": x["why"][:200]} for x in d.get("classmeta", [])]}
     for x in d["defaults"]:
@@ -806,6 +938,9 @@ def run(ck):
     # a global that is written AND read is a cache: name it as the failing program point; the histories below look for an input
     for g in d["globals"]:
         ck.tally("table:written-global")
+    for x in d.get("process_state", []):
+        ck.count(1, nontrivial_key=("process", x["module"], x["func"], x["line"]))
+        ck.tally("table:process-state:" + x["kind"] + ":" + x["scope"])
     for x in d.get("classmeta", []):
         ck.count(1, nontrivial_key=("classmeta", x["attr"]))
         ck.tally("table:class-" + x["kind"])
@@ -834,6 +969,10 @@ def replay(ck, data):
             fresh = out["jobs"][0]["value"]["results"][0]
             got = out["jobs"][1]["value"]["results"][-1]
             cls = classify_hist_diff(fresh, got)
+            invariants = [{"call": i, "process_state_changed": r.get("process_state_changed"),
+                           "class_metadata_changed": r.get("class_metadata_changed")}
+                          for i, r in enumerate(out["jobs"][1]["value"]["results"])
+                          if r.get("process_state_changed") or r.get("class_metadata_changed")]
             model = None
             d = translate(ck)
             if d is not None and ck.coqc(ck.gen_v("Gen_C07.v", gen_table(d)))[0]:
@@ -845,8 +984,9 @@ def replay(ck, data):
                 ok, res, _ = ck.coq_eval("Replay_C07.v", text + "\n")
                 model = {"alone": res[0] if ok and res else None, "after_history": res[1] if ok and len(res) > 1 else None}
             print(json.dumps({"history": calls, "implementation": {"fresh_process": brief(fresh), "after_history": brief(got),
-                                                                   "difference": cls}, "model": model}, indent=1)[:8000])
-            rc = 1 if cls else 0
+                                                                   "difference": cls, "state_invariants_violated": invariants},
+                              "model": model}, indent=1)[:8000])
+            rc = 1 if (cls or invariants) else 0
         elif kind == "schedule":
             sched = inp["sched"]
             w = inp.get("builder", "A")
@@ -877,6 +1017,12 @@ def replay(ck, data):
                               "implementation": {"solo": solo, "interleaved": r,
                                                  "first_difference": first_diff(solo["dump"], r["dump"])}}, indent=1)[:8000])
             rc = 1 if solo != r else 0
+        elif kind == "warnings_probe":
+            out = ck.impl("c07_impl.py", {"dir": tmp, "pool": W_POOL, "jobs": [
+                {"kind": "warnings_probe", "good": "w_cell.nml", "broken": "sub/w_broken.nml", "swc": "w_swc.swc"}]})
+            v = out["jobs"][0]["value"]
+            print(json.dumps({k: v[k].get("value") for k in v}, indent=1))
+            rc = 1 if v["fresh"]["value"]["swc"] != v["after_load"]["value"]["swc"] else 0
         elif kind == "optlist":
             out = ck.impl("c07_impl.py", {"dir": tmp, "jobs": [{"kind": "optlist"}]})
             v = out["jobs"][0]["value"]
